@@ -2,46 +2,79 @@
 
 Build = core.populate; wcore.populate; populate.   Source: /repo/src/write/unit.rs (non-convert, non-Filter parts).
 
-FUNCTIONS UNDER CONTRACT (real text)
+FUNCTIONS UNDER CONTRACT (real text; all owned by C11)
   write::AttributeValue::{form, size, write}       the three parallel switches, generated from ONE table (WVARS below)
   write::Attribute::specification
   write::UnitOffsets::{debug_info_offset, unit_offset}
-  write::DebuggingInformationEntry::{abbreviation, size, calculate_offsets, write}
+  write::DebuggingInformationEntry::{abbreviation, size, write}
   write::Unit::{encoding, version, address_size, format, reorder_base_types}
   write::UnitTable::write_debug_info_fixups
-  write::DebugInfo<W>::{offset, deref, deref_mut} (define_section! expanded mechanically, R-MACRO),
+  write::DebugInfo<W>::{offset, deref, deref_mut}  (define_section! expanded mechanically, R-MACRO; ids by define_id!)
   write::line::FileId::raw, write::abbrev::{AttributeSpecification::new, Abbreviation::new}
+  proof fn lemma_form_layout (table against table), lemma_upto_none, lemma_kids_layout_mono
 
 HOW THE THREE SWITCHES ARE TIED TOGETHER (and to the READER)
   WVARS maps every `AttributeValue` variant to (condition on version/format -> DWARF form -> payload kind).  The layout
   of the form is NOT restated here: it is looked up in the reader's table `batches/attrs.py FORMS` (imported; the batch
   aborts with Lost if a form is missing there), and the python generator refuses a payload kind the layout cannot hold.
   From that the generator emits
-    form_of(v, enc)           spec: the form (and implicit-const operand)            -> `form`  [C11:form-table]
-    attr_size_res(v, enc, o)  spec: bytes of the value, from the READER's layout      -> `size`  [C11:size-model]
-                                                                                        `write` [C11:size-eq-len]
-    rd_fixed_size(form, enc)  spec: the reader's `fixed_size` table (attrs.gen_specs) -> `size`  [C11:form-layout]
-    per-variant emit clauses  the exact field sequence of that layout                 -> `write` [C11:form-layout-<V>]
+    form_of(v, enc)           spec: the form (and implicit-const operand)             -> `form`  [C11:form-table]
+    attr_size_res(v, enc, o)  spec: bytes of the value, from the READER's layout       -> `size`  [C11:size-model]
+                                                                                         `write` [C11:size-eq-len]
+    rd_fixed_size(form, enc)  spec: the reader's `fixed_size` table (attrs.gen_specs)  -> lemma_form_layout [C11:form-layout]:
+                              reader-fixed size of form_of(v) == attr_size_res(v)  (what get_attribute_size returns, attrs [C03:size-table])
+    per-variant emit clauses  the exact field sequence of that layout, the fix-up      -> `write` [C11:form-layout-<V>]
+                              lists, relocatable primitives (C18)                                  [C18:attr-*-<V>] [C11:fixup-at-placeholder]
   plus the R-ASSERT obligations of the `debug_assert_form!` macros in `size`/`write` (form() == the form the arm assumes).
+  `uleb_size`/`sleb_size` are hidden inside size/write/lemma (both sides name the same term; 167 s -> 7 s); `write` is
+  verified as 6 verbatim copies (R-SPLIT) each carrying a sixth of the postconditions.
+
+SECOND CARRIER (entry tree): die_size = uleb(code) + sibling word + sum of attr sizes; subtree_size = pre-order sum + 1
+  null byte per non-empty child list; `layout_ok` = "the offsets table assigns every entry of the subtree the offset at
+  which pre-order emission reaches it".  DebuggingInformationEntry::write REQUIRES layout_ok (this is what discharges the
+  R-ASSERT obligation debug_assert_eq!(offsets.debug_info_offset(self.id), Some(w.offset())) at every entry, recursively)
+  and ENSURES it advances by exactly subtree_size, writes the measured code first, and patches the sibling placeholder
+  (at offset-after-code) with the unit-relative offset AFTER the subtree.  Recursion: decreases height(unit, index).
 
 ASSUMED (TRUSTED, beyond wcore's) - tables / types outside the Verus subset, seen through small accessors only:
-  Expression (model type: opaque stand-in for write::op::Expression) with `Expression::size` / `Expression::write`:
-      size is a function `size_spec(encoding, offsets)`; write advances the section by exactly that size, only appends to
-      the fix-up list, and every fix-up it appends lies inside the bytes it wrote.   [guaranteed by batch wop, C15]
-  StringTable::offset, LineStringTable::offset, RangeListOffsets::get, LocationListOffsets::get:
+  Expression (model type standing in for write::op::Expression) with `size` / `write`:
+      size is a function `size_spec(encoding, offsets)` (<= isize::MAX); write advances the section by exactly that size,
+      only appends to the fix-up list, and every appended fix-up lies inside the bytes written.
+      [batch wop proves size-eq-len / fixups-frame (C15) under its preconditions refs_valid, targets_ok; "fix-ups lie
+       inside the bytes written" is NOT covered by wop and is used only by [C11:fixup-inside]]
+  StringTable::offset, LineStringTable::offset (`offset`), RangeListOffsets::get, LocationListOffsets::get (`get`):
       return the recorded offset `off(id)` (IndexSet / Vec behind define_offsets!; "Panics if id is invalid" not decided)
-  AbbreviationTable::add: returns some code (IndexSet::insert_full; de-duplication not decided)
-  drain_fixups: `fixups.drain(..)` of write_debug_info_fixups as "take the whole vector" (vec::Drain is outside Verus)
-PRECONDITIONS that are assumptions about the caller (stated, not verified):
-  A-TREE   children have strictly smaller ghost height, entries[i].id.index == i, child ids in range
-           (the construction API gives this; `unit_tree_ok`)
-  A-VECLEN a Vec<u8> has at most isize::MAX bytes, a FileId index < usize::MAX (`attr_wf`)
-  A-FIT    the size sums do not exceed usize (they are bounded by the memory the attribute payloads occupy)
-NOT DECIDED: AbbreviationTable::add de-duplication, StringTable/LineStringTable contents, Dwarf::write section order,
-  Unit::write as a whole (LineProgram/RangeListTable/LocationListTable/Sections), the end-to-end "reads back as the
-  same forest"; that a DWARF 2/3 data4/data8 section offset is read back as an offset depends on the ATTRIBUTE NAME
-  (reader: allow_section_offset) which the writer does not look at; form availability per DWARF version (e.g.
-  DW_FORM_data16 / line_strp / strp_sup / ref_sup4 under version < 5) is not checked by the code and not required here.
+  AbbreviationTable::add (`add`): returns some code (IndexSet::insert_full; de-duplication not decided)
+  drain_fixups: `fixups.drain(..)` of write_debug_info_fixups as "take the whole vector" (vec::Drain is outside Verus;
+      logged rewrite R-DRAIN `for fixup in fixups.drain(..)` -> `let verif_drained = drain_fixups(fixups); for fixup in verif_drained`)
+  <usize as From<bool>>::from: 0 / 1 (std; no vstd specification)
+  unsafe impl Structural for DwForm/DwAt/DwTag/BaseId/DebugInfoOffset (wcore.ensure_structural: `==` of a derived
+      PartialEq on a field-less newtype is structural)
+PRECONDITIONS that are assumptions about the caller (stated in `requires`, not verified):
+  A-TREE   `unit_tree_ok`: entries[i].id.index == i, child ids in range and of this unit, children have strictly smaller
+           ghost `height` (uninterpreted) - the construction API (Unit::add / add_reserved, no re-parenting) gives this
+  A-VECLEN `attr_wf`: a Vec<u8> has at most isize::MAX bytes, a FileId index is < usize::MAX; attrs.len() < usize::MAX
+  A-FIT    `die_fits`: the running size sums stay below usize::MAX (bounded by the memory the payloads occupy)
+  documented "Panics if id is invalid": `UnitOffsets::knows(entry)` on debug_info_offset/unit_offset, ids of the
+           fix-ups on write_debug_info_fixups (see finding F-wunit-2: reserve() without add_reserved() breaks it)
+
+FINDINGS (build(findings=True) states the failing clause; downstream users call populate(findings=False))
+  F-wunit-1  [C11:string-no-nul] FAILS: AttributeValue::String with an embedded NUL is written with Ok(()) and reads back
+             truncated, the rest of the entry misparsed (native/src/bin/f_wunit_1.rs).
+  F-wunit-2  (observation, precondition `knows`): a UnitRef / DebugInfoRef::Entry to an id that was reserved but never
+             added panics with index-out-of-bounds in UnitOffsets::debug_info_offset instead of Err(InvalidReference)
+             (native/src/bin/f_wunit_2.rs).
+OBSERVATIONS: DebugInfoRef::Entry records its fix-up BEFORE the placeholder write; if that write fails the fix-up stays
+  ([C11:fixup-inside] is Ok-only).  `w.write_uleb128(val.size(..)? as u64)?` leaves through `?` inside the argument of a
+  DerefMut-receiver call: Verus cannot resolve the pending borrow, so the frame clauses of `write` are Ok-only.
+NOT DECIDED: DebuggingInformationEntry::calculate_offsets (that it ESTABLISHES layout_ok needs (i) frame reasoning over the
+  arena - unique parents - and (ii) stability of Expression::size between the two passes, which depends on base types having
+  been placed first: an Expression-level monotonicity property); Unit::write as a whole (LineProgram / RangeListTable /
+  LocationListTable / Sections; header fields, unit_refs patching loop); AbbreviationTable::add de-duplication,
+  StringTable/LineStringTable contents, Dwarf::write section order; the end-to-end "reads back as the same forest";
+  that a DWARF 2/3 data4/data8 section offset is read back as an offset depends on the ATTRIBUTE NAME (reader:
+  allow_section_offset) which the writer does not look at; form availability per DWARF version (DW_FORM_data16 / line_strp /
+  strp_sup / ref_sup4 under version < 5, ref_sig8 under version < 4) is not checked by the code and not required here.
 """
 from lib import *
 from batches import core, wcore
@@ -62,9 +95,8 @@ except Exception:                       # restated from DWARF 5 table 7.5/7.6 (o
                 'DW_FORM_ref_sup4': (0x1c, 'u4'), 'DW_FORM_strp_sup': (0x1d, 'word'), 'DW_FORM_line_strp': (0x1f, 'word'),
                 'DW_FORM_ref_sig8': (0x20, 'u8'), 'DW_FORM_implicit_const': (0x21, 'implicit'), 'DW_FORM_ref_sup8': (0x24, 'u8')}
 
-TRUSTED = list(wcore.TRUSTED) + ['Expression::size', 'Expression::write', 'StringTable::offset', 'LineStringTable::offset',
-                                 'RangeListOffsets::get', 'LocationListOffsets::get', 'AbbreviationTable::add', 'drain_fixups']
-# scan_trusted reports the bare fn name
+# scan_trusted reports the bare fn name: Expression::{size, write}, {StringTable, LineStringTable}::offset,
+# {RangeListOffsets, LocationListOffsets}::get, AbbreviationTable::add, drain_fixups, usize::from(bool)
 TRUSTED = list(wcore.TRUSTED) + ['size', 'write', 'offset', 'get', 'add', 'drain_fixups', '<usize as core::convert::From<bool>>::from']
 VERUS_ARGS = ['--rlimit', '40']
 RETRY_RLIMIT = 120
